@@ -11,8 +11,8 @@ from vlib import fbits, bitsf
 LEVEL_TEXT = ('Lean 4 theorems about the executable blur model at ℂ/ℝ whose transfer functions are the definitions regenerated from '
               'detector.pixel / convolvable.jitter / smear on every run (Gen/BlurWiring), for all image shapes (square or not), extents, '
               'angles, pixel scales and oversampling factors: kernel shape = image shape (kernel_shape_eq_image_shape: rfl checks of the regenerated shape expressions — a compile-time tie that fails when the source swaps the axes, not a statement about NumPy broadcasting); the kernels are the separable sinc, '
-              'exp(−2π²σ²ρ²) and the directional sinc in closed form; gain 1 at zero frequency; outputs non-negative (pixel: every image; jitter/smear: images of positive total); blurs commute with '
-              'circular shifts; zero extent is the identity on non-negative images of non-zero total; jitter/smear keep the total of every image with non-zero total (the all-zero image is excluded from all three: the real code returns nan there, known finding KF-C19-zero-image-nan); only '
+              'exp(−2π²σ²ρ²) and the directional sinc in closed form; gain 1 at zero frequency; outputs non-negative for every image of non-negative total; blurs commute with '
+              'circular shifts; zero extent is the identity on every non-negative image; jitter/smear keep the total of every image — the all-zero image included in all three: the zero-total guard `if np.sum(out) == 0: return out` is regenerated from the sources (Gen.bw…RenormGuard) and the model follows it, so no statement leans on x/0 = 0; only '
               'extent/pixelscale·oversample enters (unit invariance); pixel and jitter kernels are Hermitian on every shape and smear on odd axes, hence the '
               'filtered image is real and the output equals the exact circular convolution wherever that is non-negative (total kept) — pixel, jitter: all '
               'shapes; smear: odd×odd, with a proved bound on even axes — at most the mean modulus of the image\'s own spectrum on the Nyquist row/column, before and after renormalisation — and exactness for images with no content on those lines (smear_exact_when_nyquist_free); the convolution is the spatial circular convolution with ifft2(K). The driver runs '
@@ -40,8 +40,8 @@ UNPROVEN = ['pixelate: the call wiring (pixel, then rescale by 1/oversample, ord
             'smear_none_is_smear_at_drawn_angle); that exactly one uniform variate of the global generator is consumed is oracle only',
             'smear on even-sized axes: the deviation from the Hermitian-part convolution is bounded by the Nyquist row/column for the un-normalised and '
             'the renormalised output (smear_even_axis_deviation, smear_renormalised_deviation; at most the mean modulus of the image spectrum on those lines: smear_deviation_le_nyquist_lines; exact when the image has no content there: smear_exact_when_nyquist_free); no closed form of the output otherwise, and nothing says the bound is small for a given image',
-            'the all-zero image: jitter/smear return nan (known finding KF-C19-zero-image-nan); no theorem covers it, the run reports it on every check']
-ASSUMPTIONS = ['images are non-negative with positive total: the all-zero image — a non-negative image the property\'s quantifier includes — makes jitter/smear return nan (0·0/0); it IS generated and reported as known finding KF-C19-zero-image-nan; the theorems exclude it (in ℝ x/0 = 0 would make them hold for the wrong reason); an image whose blurred total underflows to 0 (amplitudes below ~1e-154) behaves the same and is not generated',
+            'an image whose blurred total underflows to zero without the image being zero (amplitudes below ~1e-154) is returned un-normalised by the guard: floating-point range, not modelled, not generated']
+ASSUMPTIONS = ['images are non-negative (the all-zero image included: generated, in the corpus, and covered by the theorems since the fix of the 0·0/0 renormalisation)',
                'images are 2-D arrays of shape at least 1x1 (a 1-D array raises IndexError, a 3-D array a broadcasting ValueError: observed by hand, not generated)',
                'pixelscale ≠ 0']
 
@@ -182,7 +182,7 @@ def tags(c):
     if max(m, n) >= 13 and max(m, n) in (13, 17, 19, 23, 29, 31): t.append('non-fast-length')
     if c['pixelscale'] != 1.0: t.append('physical-units')
     if c['kind'] == 'smear': t.append('smear:even-axis' if (m % 2 == 0 or n % 2 == 0) else 'smear:odd×odd')
-    if not any(c['img']): t.append('zero-image:' + ('0' if c['kind'] == 'pixel' else 'nan (known finding)'))
+    if not any(c['img']): t.append('zero-image')
     return t
 
 def shrink(c):
@@ -283,8 +283,7 @@ def compare(c, io, mo):
     tol = (3e-6 if c.get('layout') == 'float32' else TOL) * max(float(np.sum(np.abs(_image(c)))), 1e-300)      # float32 frames: single-precision sums
     if not np.array_equal(np.isnan(got), np.isnan(want)):
         return f'nan pattern differs: impl {int(np.isnan(got).sum())} nan samples, model {int(np.isnan(want).sum())}'
-    if np.isnan(got).all(): return None        # the zero image through jitter/smear: 0·0/0 in the code and in the model run at doubles alike
-    d = float(np.nanmax(np.abs(got - want)))
+    d = 0.0 if np.isnan(got).all() else float(np.nanmax(np.abs(got - want)))
     if not d <= tol: return f'max |impl - model| = {d:.3e} > {tol:.1e}'
     if c.get('pixelate') and len(mo) > 1:
         g = mo[1]
@@ -356,6 +355,7 @@ def oracle(c, io):
         if a.shape != img.shape: return f"{k}: output shape {a.shape} != image shape {img.shape}"
         if not np.all(np.isfinite(a)): return f'{k}: non-finite output' + (' on the all-zero image (0·0/0 in the renormalisation)' if not img.any() else '')
         if a.min() < 0: return f'{k}: negative output {a.min()}'
+        if not img.any() and a.any(): return f'{k}: the all-zero image does not blur to zeros (max {a.max()})'
     K = transfer(c)
     if abs(K[0, 0] - 1) > 1e-12: return f'transfer function gain at zero frequency is {K[0, 0]}'
     d = float(np.max(np.abs(_arr(io['rolled']) - np.roll(out, tuple(c['roll']), axis=(0, 1)))))
@@ -419,18 +419,3 @@ def oracle(c, io):
         if not abs(r1.sum() - S) <= tol: return f'smear(angle=None): total not preserved: {S} -> {r1.sum()}'
         if not io['rand_draws']['one_uniform']: return 'smear(angle=None) does not consume exactly one uniform draw of the global generator'
     return None
-
-
-# ------------------------------------------------------------------------------------------ known finding
-KF_ZERO = 'KF-C19-zero-image-nan'
-
-def matches_finding(kf, case, msg):
-    if kf.get('id') != KF_ZERO: return False
-    return case.get('kind') in ('jitter', 'smear') and not any(case['img']) and 'non-finite output on the all-zero image' in msg
-
-def replay_finding(kf):
-    if kf.get('id') != KF_ZERO: return False
-    c = kf['witness']
-    io = impl(c)
-    msg = oracle(c, io)
-    return bool(msg and matches_finding(kf, c, msg))
